@@ -53,6 +53,15 @@ def instances(tier, seed):
                                         label="roundtrip %s %s idx=%d %s via=%s" % (cls, "".join(kinds), idx, kind, via), key="roundtrip/%s" % cls))
     for ver in ("0.1", "0.2", "0.3"):
         out.append(dict(op="oldversion", version=ver, label="load of dump format %s" % ver, key="roundtrip/old"))
+    # float build: what is stored depends on NumPy dtypes (real matrices with a complex prefactor, complex matrices with a real prefactor, ...), which the
+    # object backend cannot tell apart - one concrete run per dtype combination
+    for cls in ("mps", "mpdm"):
+        kinds, bonds = ("e", "e"), (1, 2, 1)
+        qn = cs.label_sets(cls, kinds, bonds, 1, 1, 1, seed)[0]
+        for kind in ("real", "cplx"):
+            for cf in ("real", "complex", "imaginary"):
+                out.append(dict(op="roundtrip", cls=cls, kinds=kinds, bonds=bonds, qn=qn, qntot=1, qnidx=1, to_right=False, kind=kind, via="mps", coeff_kind=cf, concrete=True,
+                                label="[float build] roundtrip %s %s matrices with a %s prefactor" % (cls, kind, cf), key="roundtrip/floatbuild/%s" % cls))
     return out
 
 
@@ -251,6 +260,8 @@ def make_roundtrip(P):
         model, a = cs.build(ctx, P, kind=P["kind"])
         if P["kind"] == "cplx" and hasattr(a, "coeff"):
             a.coeff = ctx.cplx("coeff", 0.6 - 0.8j)
+        if P.get("coeff_kind"):
+            a.coeff = {"real": -1.3, "complex": 0.6 - 0.8j, "imaginary": 0.9j}[P["coeff_kind"]]
         st = Store()
 
         class NpP:
